@@ -220,6 +220,8 @@ class AdapterCutter(SingleEndModifier):
         """
         matches = []
         if self.action == "lowercase":  # TODO this should not be needed
+            # Not in place: the record is also the one kept as the original read
+            read = read[:]
             read.sequence = read.sequence.upper()
         trimmed_read = read
         for _ in range(self.times):
